@@ -380,6 +380,26 @@ def sList (s : Stream) : Except Err Nat × Stream :=
   | ((.list, sz, none), s) => (.ok sz, { s with stack := (0, sz) :: s.stack, kind := none, size := 0 })
   | ((_, _, none), s) => (.error .expectedList, s)
 
+/-- Stream.Bool -/
+def sBool (s : Stream) : Except Err Bool × Stream :=
+  match sUint 8 s with
+  | (.error e, s) => (.error e, s)
+  | (.ok 0, s) => (.ok false, s)
+  | (.ok 1, s) => (.ok true, s)
+  | (.ok _, s) => (.error .badBool, s)
+
+/-- Stream.Raw: the next value with a freshly made header in front of its content; lists are not entered and a one-byte
+    string below 0x80 is NOT rejected (the content is taken as is) -/
+def sRaw (s : Stream) : Except Err Bytes × Stream :=
+  match kindOf s with
+  | ((_, _, some e), s) => (.error e, s)
+  | ((.byte, _, none), s) => (.ok [s.byteval], { s with kind := none })
+  | ((k, sz, none), s) =>
+    let h := if k == .string then encHead 0x80 0xB7 sz else encHead 0xC0 0xF7 sz
+    match readFull sz { s with alloc := max s.alloc (h.length + sz) } with
+    | (.error e, s) => (.error e, s)
+    | (.ok b, s) => (.ok (h ++ b), s)
+
 /-- Stream.ListEnd -/
 def sListEnd (s : Stream) : Option Err × Stream :=
   match s.stack with
